@@ -89,6 +89,10 @@ func (c *CachedProvider) SetStoreConfig(name string, config spi.StoreConfigurati
 		}
 	}
 
+	// An OpenStore in progress has opened the store in the main provider but not yet in the cache provider: wait for it.
+	c.lock.RLock()
+	defer c.lock.RUnlock()
+
 	err := c.mainProvider.SetStoreConfig(name, config)
 	if err != nil {
 		return fmt.Errorf("failed to set store configuration in main provider: %w", err)
